@@ -59,9 +59,9 @@ pub fn plan(tier: Tier) -> Plan {
         rule: "E6: the C02 op alphabet with publishes and acknowledgements dominating, crossed with every inflight limit 1..=8 (campaign c07_small_limits, uniform over the limits) and with the limits 100 and 65535 (c07_large_limits; the id allocator is first advanced to just before the wrap by SUBSCRIBE requests), v4 and v5, v5 with CONNACK receive_max below and above the configured limit. Over the wire history (packets returned by the state machine): every QoS>0 PUBLISH, SUBSCRIBE, UNSUBSCRIBE id is non-zero and <= the configured limit; no fresh PUBLISH carries an id the model holds as unacknowledged (QoS 2: until PUBCOMP); the number unacknowledged after a fresh PUBLISH is <= the window; inflight() equals the model's count after every op; whenever a publish is parked in `collision` its id is held by an unacknowledged publish, and the final ack of that id returns the parked publish for the wire. A case is non-trivial when packet ids wrapped around and >= 1 collision occurred and was resolved. Distinct = distinct case hash.".to_string() + crate::clientloop::props::C07_RULE,
         assumptions: vec![
             "User requests are fed to the state machine only when EventLoop::select() would feed them: inflight() < limit (v5: < min(limit, receive_max)) and no collision pending; otherwise the op is skipped and counted. The replay of `pending` after a resumed reconnect is fed unconditionally, as the event loop does.".into(),
-            "A failure is modelled exactly as the event loop handles any error: clean(); pending kept iff the generated session_present; v5: CONNACK fed to the state machine; pending replayed in order before anything else. Requests still queued in the channel at failure time (finding K2) belong to the event-loop engine and are not generated here.".into(),
+            "A failure is modelled exactly as the event loop handles any error: clean(); pending kept iff the generated session_present; v5: CONNACK fed to the state machine; pending replayed in order before anything else. Requests still queued in the channel at failure time (K2, repaired in /repo) belong to the event-loop engine and are not generated here.".into(),
             "Every Err returned by the state machine (rejected ack, keep-alive error, server DISCONNECT) is followed by that failure handling, as in EventLoop::poll().".into(),
-            "The window bound is asserted when a fresh PUBLISH is emitted (a mid-stream CONNACK may lower receive_max below what is already in flight; the replay after a reconnect is K2 territory).".into(),
+            "The window bound is asserted when a fresh PUBLISH is emitted (a mid-stream CONNACK may lower receive_max below what is already in flight; the replay after a reconnect belongs to the event-loop engine).".into(),
             "SUBSCRIBE/UNSUBSCRIBE ids are only required to be non-zero and <= limit (the statement asks uniqueness only among publishes).".into(),
         ],
         min_nontrivial: 3000,
